@@ -380,6 +380,112 @@ def r6(ctx, prog):
     ctx.stats['rerun_sites'] = n
 
 
+def r7(ctx, prog):
+    ctx.rule('C17.R7', 'A4 replay fidelity: the function a serial composite stores while paused re-enters the same handler with the arguments the handler '
+                       'was given — the closure calls the enclosing handler with its own parameters, and nothing on the way to the held-back test assigns a '
+                       'parameter or one of the composite\'s own fields (a replay would apply it a second time)', floor=8)
+    serial = set(prog.derived_classes(SER)) | {SER}
+    n = 0
+    for h in finish_handlers(prog):
+        top = prog.outermost(h)
+        if top.cls not in serial:
+            continue
+        gates = [st for st in h.calls() if st.get('fn') == 'handleChildFinishEvent']
+        for gate in gates:
+            n += 1
+            gp = q.pt(h, gate)
+            pids = {p_['d']: (i, p_['n']) for i, p_ in enumerate(h.params)}
+            bad = []
+            lam = [h.stmts[x] for a in gate.get('args', []) for x in h.walk(a) if h.stmts[x]['k'] == 'LambdaExpr']
+            lf = prog.lambda_func(h, lam[0]) if lam else None
+            if lf is None:
+                bad.append('the stored function is not a closure over this handler')
+            else:
+                rec = [c for c in lf.calls() if c.get('usr') == h.usr]
+                if not rec:
+                    bad.append('the stored closure does not call %s again' % h.short)
+                for c in rec:
+                    for i, a in enumerate(c.get('args', [])):
+                        x = lf.s(lf.strip_casts(a))
+                        if not (x and x['k'] == 'DeclRefExpr' and x.get('d') in pids and pids[x['d']][0] == i):
+                            bad.append('argument %d of the replayed call is %s, not the handler\'s own parameter' % (i + 1, lf.path(a)))
+            # nothing is applied before the held-back test
+            for st in h.stmts:
+                if not st:
+                    continue
+                lhs = None
+                if st['k'] in ('BinaryOperator', 'CompoundAssignOperator') and st.get('op', '').endswith('=') and st['op'] not in ('==', '!=', '<=', '>='):
+                    lhs = st['ch'][0]
+                elif st['k'] == 'UnaryOperator' and st.get('op') in ('++', '--'):
+                    lhs = st['ch'][0]
+                elif st['k'] == 'CXXOperatorCallExpr' and st.get('op') in ('=', '+=', '-=', '++', '--') and st.get('obj') is not None:
+                    lhs = st['obj']
+                if lhs is None:
+                    continue
+                sp = q.pt_or_term(h, st)
+                if sp is None or gp is None or sp == gp or not h.cfg.exists_path(sp, gp):
+                    continue
+                if any(st['i'] in set(h.walk(a)) for a in gate.get('args', [])):
+                    continue
+                x = h.s(h.strip_casts(lhs))
+                if st['k'] == 'BinaryOperator' and st.get('op') == '=' and (h.s(st['ch'][1]) or {}).get('cv') is not None:
+                    continue        # a constant: applying it twice is applying it once
+                if x and x['k'] == 'DeclRefExpr' and x.get('d') in pids:
+                    bad.append('parameter %s is reassigned at %s before handleChildFinishEvent(): the stored closure captures the changed value and the replay through %s '
+                               'changes it again' % (x['n'], h.loc(st['i']), h.short))
+                elif h.field_of(lhs):
+                    bad.append('%s is modified at %s before handleChildFinishEvent(): a held-back result applies it once now and once on replay' % (h.path(lhs), h.loc(st['i'])))
+            ctx.ob('C17.R7', '%s|replay' % locks.site_name(prog, h), not bad, 'the held-back function replays the handler with its original arguments' if not bad else '; '.join(bad[:3]),
+                   where=h.loc(gate['i']))
+    if n < 8:
+        raise AnalysisBroken('expected >= 8 held-back tests in serial composites, found %d' % n)
+
+
+def r8(ctx, prog):
+    ctx.rule('C17.R8', 'A12 fresh-run timeout: every run is armed with the configured time-out — timer_ev_ is programmed (initialize) only with the value given to '
+                       'setTimeout(), or, where another interval is ever programmed, start()/reset() programs the configured one again before the timer is enabled', floor=1)
+    st_f = method(prog, A, 'setTimeout', True)
+    cfg_param = {p_['d'] for p_ in st_f.params}
+    # fields that only ever hold the configured value
+    cfg_fields = set()
+    for fld in (x.split('::')[-1] for x in locks.class_fields(prog, A)):
+        asg = [(f, a, rhs) for f in prog.methods_of(A) for a, rhs in q.assigns(f, 'Action::' + fld)]
+        if asg and all(f is st_f and (st_f.s(st_f.strip_casts(rhs)) or {}).get('d') in cfg_param for f, a, rhs in asg):
+            cfg_fields.add(fld)
+    sites = []
+    for f in prog.methods_of(A):
+        for c in f.calls():
+            if c.get('fn') == 'initialize' and c.get('obj') is not None and (f.field_of(c['obj']) or '').endswith('timer_ev_'):
+                a0 = f.s(f.strip_casts(c['args'][0])) if c.get('args') else None
+                while a0 is not None and a0['k'] in ('CXXConstructExpr', 'MaterializeTemporaryExpr', 'CXXBindTemporaryExpr') and a0.get('ch'):
+                    a0 = f.s(f.strip_casts(a0['ch'][0]))
+                conf = bool(a0) and ((f is st_f and a0['k'] == 'DeclRefExpr' and a0.get('d') in cfg_param) or
+                                     ((f.field_of(a0['i']) or '').split('::')[-1] in cfg_fields))
+                sites.append((f, c, conf))
+    if not sites:
+        raise AnalysisBroken('Action: no timer_ev_->initialize() site found')
+    foreign = [(f, c) for f, c, conf in sites if not conf]
+    ok, why = True, 'timer_ev_ is programmed at %d site(s), each with the configured time-out' % len(sites)
+    if foreign:
+        def reprograms(name):
+            g = method(prog, A, name, True)
+            ens = [c for c in g.calls() if c.get('fn') == 'enable' and c.get('obj') is not None and (g.field_of(c['obj']) or '').endswith('timer_ev_')]
+            ins = [q.pt(g, c) for f, c, conf in sites if conf and f is g]
+            return ens, ins, g
+        ens, ins, g = reprograms('start')
+        rg = method(prog, A, 'reset', True)
+        rins = [q.pt(rg, c) for f, c, conf in sites if conf and f is rg]
+        in_start = bool(ens) and all(any(g.cfg.dominates(i, q.pt(g, e)) for i in ins) for e in ens)
+        in_reset = any(rg.cfg.postdominates(i, rg.cfg.entry_point()) for i in rins)      # on every path through reset()
+        ok = in_start or in_reset
+        f0, c0 = foreign[0]
+        why = ('%s programs another interval, and start() programs the configured one before enabling' % f0.short) if ok else \
+              ('%s() programs timer_ev_ with %s (%s), which is not the configured time-out, and neither start() nor reset() programs the configured value again: '
+               'the next run of a reset action is armed with the leftover interval, so it does not behave like a fresh one'
+               % (f0.short, f0.path(c0['args'][0]) if c0.get('args') else '?', f0.loc(c0['i'])))
+    ctx.ob('C17.R8', 'Action|timer-interval', ok, why, where=(foreign[0][0].loc(foreign[0][1]['i']) if foreign else st_f.loc(st_f.body)))
+
+
 def run(ctx):
     prog = extract('ALL' if ctx.tier == 'thorough' else scope_units())
     ctx.guard(r1, ctx, prog)
@@ -388,4 +494,6 @@ def run(ctx):
     ctx.guard(r4, ctx, prog)
     ctx.guard(r5, ctx, prog)
     ctx.guard(r6, ctx, prog)
+    ctx.guard(r7, ctx, prog)
+    ctx.guard(r8, ctx, prog)
     return prog
